@@ -168,7 +168,7 @@ def _normalize_path(p: str):
     # even so, normalization can be disabled by passing normalize=False to
     #   ExeFSReader.open
     if p.lower().endswith('.bin'):
-        p = p[:4]
+        p = p[:-4]
     return p
 
 
